@@ -119,11 +119,11 @@ int main(int argc, char ** argv) {
             Tables t = readPomdp(c);
             auto bv = c.nextDoubles(); POMDP::Belief b(bv.size()); for (size_t i = 0; i < bv.size(); ++i) b[i] = bv[i];
             POMDP::Model<MDP::Model> dense(t.O, t.Ob, t.S, t.A, t.T, t.R, t.g);
-            if (repr == "dense") { POMDP::RTBSS s(dense, maxR); auto [a, v] = s.sampleAction(b, h); o << a << v; }
-            else if (repr == "generic") { GenericPOMDP g(dense); POMDP::RTBSS s(g, maxR); auto [a, v] = s.sampleAction(b, h); o << a << v; }
-            else if (repr == "mixed1") { POMDP::Model<MDP::SparseModel> x(dense); POMDP::RTBSS s(x, maxR); auto [a, v] = s.sampleAction(b, h); o << a << v; }
-            else if (repr == "mixed2") { POMDP::SparseModel<MDP::Model> x(dense); POMDP::RTBSS s(x, maxR); auto [a, v] = s.sampleAction(b, h); o << a << v; }
-            else { POMDP::SparseModel<MDP::SparseModel> sp(dense); POMDP::RTBSS s(sp, maxR); auto [a, v] = s.sampleAction(b, h); o << a << v; }
+            if (repr == "dense") { POMDP::RTBSS s(dense, maxR); auto [a, v] = s.sampleAction(b, h); o << a << v; POMDP::RTBSS s2(dense, maxR); { POMDP::Belief u(b.size()); u.fill(1.0 / b.size()); s2.sampleAction(u, h > 1 ? h - 1 : 1); } auto [a2, v2] = s2.sampleAction(b, h); o << a2 << v2; }
+            else if (repr == "generic") { GenericPOMDP g(dense); POMDP::RTBSS s(g, maxR); auto [a, v] = s.sampleAction(b, h); o << a << v; POMDP::RTBSS s2(g, maxR); { POMDP::Belief u(b.size()); u.fill(1.0 / b.size()); s2.sampleAction(u, h > 1 ? h - 1 : 1); } auto [a2, v2] = s2.sampleAction(b, h); o << a2 << v2; }
+            else if (repr == "mixed1") { POMDP::Model<MDP::SparseModel> x(dense); POMDP::RTBSS s(x, maxR); auto [a, v] = s.sampleAction(b, h); o << a << v; POMDP::RTBSS s2(x, maxR); { POMDP::Belief u(b.size()); u.fill(1.0 / b.size()); s2.sampleAction(u, h > 1 ? h - 1 : 1); } auto [a2, v2] = s2.sampleAction(b, h); o << a2 << v2; }
+            else if (repr == "mixed2") { POMDP::SparseModel<MDP::Model> x(dense); POMDP::RTBSS s(x, maxR); auto [a, v] = s.sampleAction(b, h); o << a << v; POMDP::RTBSS s2(x, maxR); { POMDP::Belief u(b.size()); u.fill(1.0 / b.size()); s2.sampleAction(u, h > 1 ? h - 1 : 1); } auto [a2, v2] = s2.sampleAction(b, h); o << a2 << v2; }
+            else { POMDP::SparseModel<MDP::SparseModel> sp(dense); POMDP::RTBSS s(sp, maxR); auto [a, v] = s.sampleAction(b, h); o << a << v; POMDP::RTBSS s2(sp, maxR); { POMDP::Belief u(b.size()); u.fill(1.0 / b.size()); s2.sampleAction(u, h > 1 ? h - 1 : 1); } auto [a2, v2] = s2.sampleAction(b, h); o << a2 << v2; }
         } else throw std::logic_error("unknown case kind " + kind);
     });
 }
